@@ -106,6 +106,7 @@ func rulesC03(c *Ctx) {
 	R.Rule("R7", "signature save is the last fallible step and is atomic", 5)
 	R.Rule("R8", "mint signs only behind overflow-checked OUT <= stored quote amount (at most the quoted amount)", 3)
 	R.Rule("R9", "the quote state survives storage: String() and StringToState of the mint-quote state are inverse tables (the state is persisted as text)", 1)
+	R.Rule("R10", "the PENDING marker precedes every other storage / Lightning call of the mint op", 2)
 	c.ruleEnumTables("R9", "cashu/nuts/nut04")
 	c.vocabProblems("R1")
 	st := c.mintStateConsts("R1")
@@ -174,6 +175,34 @@ func rulesC03(c *Ctx) {
 				return e != nil && e.K == "map" && exprIs(e.Args[0], outputs) && exprIs(e.Args[1], "elem("+outputs+").B_")
 			},
 		})
+		// R10: the PENDING marker is the first thing the guarded section does: every other storage or Lightning
+		// call of the mint op (the quote-state read apart) sits behind its successful write, so that a second
+		// request for the same quote meets PENDING as early as the code allows (no blocking call inside the
+		// read-to-marker window; the window that remains is the known finding of R6)
+		{
+			var opCalls []ssa.CallInstruction
+			for _, g := range c.OpFuncs(mint) {
+				opCalls = append(opCalls, Calls(g)...)
+			}
+			n := 0
+			for _, ci := range opCalls {
+				d := c.P.Describe(ci)
+				m, isDB := c.V.IsDBCall(d)
+				_, isLN := c.V.IsLNCall(d)
+				if !isDB && !isLN {
+					continue
+				}
+				if isDB && c.V.HasRole(m, roleSetMint) {
+					continue // the marker itself, ISSUED and the revert (R1, R4, R5)
+				}
+				n++
+				ok, why := c.RequireAt(ci, pendingOK)
+				R.Check("R10", fk, d.Name+" <= PENDING written", c.P.InstrPos(ci), ok, "no storage or Lightning call of the mint op precedes the PENDING marker", why)
+			}
+			if n == 0 {
+				R.Unresolved("R10", "storage calls of the mint op", "none found")
+			}
+		}
 		for _, s := range sites {
 			for _, cd := range []*Cond{statePaid, pendingOK} {
 				ok, why := c.RequireAt(s.Instr, cd)
@@ -195,46 +224,7 @@ func rulesC03(c *Ctx) {
 		}
 	}
 
-	// R2
-	if quoteOp != nil {
-		fk := c.P.FuncKey(quoteOp)
-		isRec := func(e *Ex) bool {
-			return e != nil && e.K == "call" && e.Idx == 0 && c.dbCallWithRole(e, roleReadMint) && arg(e, 1) != nil && arg(e, 1).K == "param"
-		}
-		isInv := func(e *Ex, idx int) bool {
-			return e != nil && e.K == "call" && e.Idx == idx && strings.HasSuffix(e.S, ")."+c.V.InvoiceStatusMeth) &&
-				isField(arg(e, 1), "PaymentHash") && isRec(arg(e, 1).Args[0])
-		}
-		conds := []*Cond{
-			{Name: "stored state == UNPAID", Match: func(f *Fact, o *Origins) bool {
-				return f.Kind == "cmp" && f.Pos && f.Op.String() == "==" && isField(f.A, "State") && isRec(f.A.Args[0]) && isConst(f.B, st["Unpaid"])
-			}},
-			{Name: "invoice lookup for the quote's payment hash succeeded", Match: func(f *Fact, o *Origins) bool {
-				return f.Kind == "errnil" && f.Pos && isInv(f.A, 1)
-			}},
-			{Name: "backend reports Settled", Match: func(f *Fact, o *Origins) bool {
-				return f.Kind == "bool" && f.Pos && isField(f.A, "Settled") && isInv(f.A.Args[0], 0)
-			}},
-		}
-		sites := c.roleSites(quoteOp, roleSetMint)
-		if len(sites) == 0 {
-			R.Unresolved("R2", "PAID write in quote-state op", "no "+roleSetMint+" call")
-		}
-		for _, s := range sites {
-			for _, cd := range conds {
-				ok, why := c.RequireAt(s.Instr, cd)
-				R.Check("R2", fk, siteDesc(c, s)+" <= "+cd.Name, c.P.InstrPos(s.Instr), ok, "quote-state op writes the state only behind ["+cd.Name+"]", why)
-			}
-			if s.Direct {
-				o := c.P.OriginsOf(s.Instr.Parent())
-				d := c.P.Describe(s.Instr)
-				val, id := o.Of(d.Args[1]), o.Of(d.Args[0])
-				R.Check("R2", fk, siteDesc(c, s)+" writes PAID for that quote", c.P.InstrPos(s.Instr),
-					isConst(val, st["Paid"]) && isField(id, "Id") && isRec(id.Args[0]), "the value written is the constant PAID, for the id of the record that was read",
-					"writes "+short(val.String(), 60)+" for "+short(id.String(), 100))
-			}
-		}
-	}
+	c.ruleQuotePaidWrite("R2")
 
 	c.ruleMintAmount("R8", mint)
 	c.c03MessageAgreement()
@@ -449,6 +439,10 @@ func (c *Ctx) c03WriterCensus(mint, quoteOp *ssa.Function, st map[string]string)
 				why = "background goroutine writes " + to + " with no fact about the current stored state (it may run after ISSUED or during PENDING): " + why
 			}
 			R.Check("R5", fk, construct+" from background goroutine", pos, ok && to == "PAID", "the invoice watcher may only move UNPAID -> PAID", why)
+			// the notification is acted on once: a write that is repeated (retry loop, delay) can land after the
+			// quote was issued - a different history than the one recorded as the known watcher race
+			inLoop := o.Loops.InnermostContaining(s.ci.Block()) != nil
+			R.Check("R5", fk, "background write is not repeated", pos, !inLoop, "the invoice watcher writes the state at most once per notification, not in a retry loop", "the write sits in a loop")
 		default:
 			// internal settlement: helper that also marks a melt quote PAID, reachable from the melt op only
 			writesMelt := false
@@ -591,4 +585,55 @@ func (c *Ctx) checkAtomicMultiRow(rule, role string) {
 			R.Check(rule, fk, role+" commit", site, okCommit, "success is returned only after Commit succeeded", "no Commit on the success path")
 		}
 	}
+}
+
+// ruleQuotePaidWrite (shared: C03.R2, C02.R9): the quote-state op writes PAID only behind stored state ==
+// UNPAID, a successful invoice lookup for the quote's own payment hash and a Settled answer.
+func (c *Ctx) ruleQuotePaidWrite(rule string) {
+	R := c.R
+	st := c.mintStateConsts(rule)
+	if st == nil {
+		return
+	}
+	quoteOp := c.op(rule, "/v1/mint/quote/{method}/{quote_id}")
+	if quoteOp != nil {
+		fk := c.P.FuncKey(quoteOp)
+		isRec := func(e *Ex) bool {
+			return e != nil && e.K == "call" && e.Idx == 0 && c.dbCallWithRole(e, roleReadMint) && arg(e, 1) != nil && arg(e, 1).K == "param"
+		}
+		isInv := func(e *Ex, idx int) bool {
+			return e != nil && e.K == "call" && e.Idx == idx && strings.HasSuffix(e.S, ")."+c.V.InvoiceStatusMeth) &&
+				isField(arg(e, 1), "PaymentHash") && isRec(arg(e, 1).Args[0])
+		}
+		conds := []*Cond{
+			{Name: "stored state == UNPAID", Match: func(f *Fact, o *Origins) bool {
+				return f.Kind == "cmp" && f.Pos && f.Op.String() == "==" && isField(f.A, "State") && isRec(f.A.Args[0]) && isConst(f.B, st["Unpaid"])
+			}},
+			{Name: "invoice lookup for the quote's payment hash succeeded", Match: func(f *Fact, o *Origins) bool {
+				return f.Kind == "errnil" && f.Pos && isInv(f.A, 1)
+			}},
+			{Name: "backend reports Settled", Match: func(f *Fact, o *Origins) bool {
+				return f.Kind == "bool" && f.Pos && isField(f.A, "Settled") && isInv(f.A.Args[0], 0)
+			}},
+		}
+		sites := c.roleSites(quoteOp, roleSetMint)
+		if len(sites) == 0 {
+			R.Unresolved(rule, "PAID write in quote-state op", "no "+roleSetMint+" call")
+		}
+		for _, s := range sites {
+			for _, cd := range conds {
+				ok, why := c.RequireAt(s.Instr, cd)
+				R.Check(rule, fk, siteDesc(c, s)+" <= "+cd.Name, c.P.InstrPos(s.Instr), ok, "quote-state op writes the state only behind ["+cd.Name+"]", why)
+			}
+			if s.Direct {
+				o := c.P.OriginsOf(s.Instr.Parent())
+				d := c.P.Describe(s.Instr)
+				val, id := o.Of(d.Args[1]), o.Of(d.Args[0])
+				R.Check(rule, fk, siteDesc(c, s)+" writes PAID for that quote", c.P.InstrPos(s.Instr),
+					isConst(val, st["Paid"]) && isField(id, "Id") && isRec(id.Args[0]), "the value written is the constant PAID, for the id of the record that was read",
+					"writes "+short(val.String(), 60)+" for "+short(id.String(), 100))
+			}
+		}
+	}
+
 }
